@@ -447,7 +447,7 @@ PARTS = [
     Part("process-ideal", lambda tier: procs.process_case(kinds=("ideal-iso", "ideal-noniso"), removal=(1e-4, 0.1), max_steps=6, builtin_share=1.0),
          check_process, {"quick": 240, "thorough": 8000}, floor={"quick": 25, "thorough": 800}, shrink={"quick": False, "thorough": True}),
     Part("process-non-ideal", lambda tier: procs.process_case(kinds=("nonideal-iso", "nonideal-noniso"), removal=(1e-4, 0.1), max_steps=5, builtin_share=1.0),
-         check_process, {"quick": 64, "thorough": 1500}, floor={"quick": 8, "thorough": 150}, shrink={"quick": False, "thorough": True}),
+         check_process, {"quick": 160, "thorough": 1500}, floor={"quick": 8, "thorough": 100}, shrink={"quick": False, "thorough": True}),
     Part("save-histories", None, check_history, {"quick": 96, "thorough": 3000}, floor={"quick": 20, "thorough": 600},
          shrink={"quick": False, "thorough": True}, machine=save_machine, steps={"quick": 6, "thorough": 6}),
 ]
